@@ -229,6 +229,26 @@ def rule_LEAK(ctx, R, rule="R3", roles=("ACQ-SCOPED",), all_fns=False, floor=30)
         if (f.get("trait_item") or "").startswith("lockable::RawLock::"):
             continue   # HL ops / algorithm helpers: returning with the lock held is their contract (M2, E2, E5 decide them)
         leaks = held_exit_obligation(ctx, R, f, paths)
+        # the converse: a guard handed back for a lock the call no longer holds (it was released on the way, e.g. by a
+        # dropped temporary): the guard's own drop will release a lock this thread does not hold
+        from interp import val_contains
+        phantom = None
+        for p in paths:
+            if p.kind != "ret" or p.value is None:
+                continue
+            for gid, (recv, mode, status) in p.guards.items():
+                if recv is None or status != "live" or mode not in ("W", "R"):
+                    continue
+                if val_contains(p.value, lambda x: x[0] == "op" and (x[1] == gid or x[1].startswith(gid + "."))) and \
+                        p.locks.get(recv) != mode and any(e["k"] in ("ACQ", "TRY") and e.get("recv") == recv for e in p.events):
+                    phantom = (recv, mode, p)
+        if phantom and not leaks:
+            recv, mode, p = phantom
+            res.bad(Violation(rule, f["path"], "phantom-hold:%s" % mode,
+                              "the returned guard stands for %s in mode %s, but the call has already released that lock (state %s): "
+                              "the guard's drop will release a lock this thread does not hold (path: %s)" % (
+                                  ctx.arg_name(f, recv), mode, p.locks.get(recv), p.trace()[:400]), *_fnloc(ctx, f)))
+            continue
         if leaks:
             seen = set()
             for kind, r, m, p in leaks:
